@@ -9,7 +9,7 @@ use std::collections::{BTreeMap, BTreeSet};
 
 use super::object::AbstractObject;
 use super::state::State;
-use super::{Config, Data, VERSION};
+use super::{Config, Data};
 
 /// Contains methods of the `Context` struct that deal with the manipulation of abstract IDs.
 mod id_manipulation;
@@ -296,7 +296,8 @@ impl<'a> Context<'a> {
     fn report_null_deref(&self, tid: &Tid) {
         let warning = CweWarning {
             name: "CWE476".to_string(),
-            version: VERSION.to_string(),
+            // The version has to match the version of the corresponding check and not the version of this analysis.
+            version: crate::checkers::cwe_476::CWE_MODULE.version.to_string(),
             addresses: vec![tid.address.clone()],
             tids: vec![format!("{tid}")],
             symbols: Vec::new(),
